@@ -63,10 +63,10 @@ CHECKS['C01'] = dict(
         "for every skeleton up to the bound (full alphabet, a deep single-name instance for stack discipline, all documented "
         "implicit-name parents and all inline parents) and for simulated abbreviations of 30-44 tokens. Every complete abbreviation "
         "is expanded by the real expand() under html/xhtml/xml x format on/off and its tag listing, read by an independent lexer, "
-        "must equal the contract's listing with implicit names resolved by the documented table.",
+        "must equal the contract's listing with implicit names resolved by the documented table. Second layer: AbbrGrammar.tla generates every abbreviation of the documented grammar over a property-specific set of syntactic fragments; AbbrConvert.tla (tokenizer, token parser and convert() transcribed from the code, TLC-checked for acceptance, tiling and tree shape) computes its node tree, which is compared with the tree of the real emmet.abbreviation.parse() on depth, name and self-closing mark (all operator sequences of up to 11 fragments, all mixes with groups and repeaters up to 6).",
    note="Bounded skeletons; '>' after a group or a self-closed element and the undocumented extra parents of the implicit-name table "
         "are outside the generated grammar. Trusted: TLC, the tag lexer harness/project_html.py.",
-   technique="TLA+ spec (stack machine = depth contract by TLC) + spec->code replay of every generated abbreviation",
+   technique="TLA+ spec (stack machine = depth contract by TLC; transcription of tokenizer/parser/convert) + spec->code replay of every generated abbreviation",
    ref="5/C01")
 
 CHECKS['C02'] = dict(
@@ -75,7 +75,7 @@ CHECKS['C02'] = dict(
         "EndCopy with the repeat budget). TLC checks: unlimited budget = stack-free unrolling with Counter(i,N,base,rev) of the nearest "
         "repeated item; any budget = functional contract threading completed copies in document order; guard = limit - completed; no "
         "second or later copy begins once the limit is reached; every written element at least once; padding width. Every terminal "
-        "state (abbreviation, maxRepeat) is replayed through expand() and compared on copies, nesting and printed counters.",
+        "state (abbreviation, maxRepeat) is replayed through expand() and compared on copies, nesting and printed counters. Second layer: AbbrGrammar.tla generates every abbreviation of the documented grammar over a property-specific set of syntactic fragments; AbbrConvert.tla (tokenizer, token parser and convert() transcribed from the code, TLC-checked for acceptance, tiling and tree shape) computes its node tree, which is compared with the tree of the real emmet.abbreviation.parse() on names, text and attribute values under maxRepeat none / 3 / 1 (forms $, $$@3, $@-, $$@-5, $@^, $@^^, repeaters *1 *2 *3 *).",
    note="Bounded (tokens, nesting, N<=4, limits {1,2,3,5,8}); '@-' values under a truncating limit are not judged (statement silent). "
         "Trusted: TLC, tag lexer.",
    technique="TLA+ step machine = contracts (TLC) + spec->code replay of every terminal state",
@@ -88,7 +88,7 @@ CHECKS['C03'] = dict(
         "(position of first mention, class values joined in written order, last value - first under reverseAttributes), that no "
         "name is emitted twice, and computes for eight option rows (html/xml/jsx/vue x quotes x case x compactBoolean x "
         "selfClosingStyle) the attribute list the printer must emit. Every vector is expanded by the real code under the rows and the "
-        "printed tag's (name, quote, value) list read by the independent lexer must be equal.",
+        "printed tag's (name, quote, value) list read by the independent lexer must be equal. Second layer: AbbrGrammar.tla generates every abbreviation of the documented grammar over a property-specific set of syntactic fragments; AbbrConvert.tla (tokenizer, token parser and convert() transcribed from the code, TLC-checked for acceptance, tiling and tree shape) computes its node tree, which is compared with the tree of the real emmet.abbreviation.parse() on the attribute lists (name, value, value type, boolean and implied marks) of every element.",
    note="Statement-silent mention sequences (flag computed by the spec) are generated but not judged. Snippet-provided attributes "
         "are covered by C14. Trusted: TLC, tag lexer.",
    technique="TLA+ merge machine = contract (TLC) + spec->code replay under option rows",
@@ -103,27 +103,34 @@ CHECKS['C04'] = dict(
         "AbbrWrap.tla: every list of up to 3 (simulated 6) wrap lines over 17 atoms (blank, padded, lines that look like syntax or "
         "numbering, non-ASCII, backslash) x 15 templates (implicit repeater on elements and groups, $# in attribute and text, text "
         "already present, numbering, no repeater); TLC checks the converter loop with its `inserted` flag against a loop-free "
-        "contract; each vector is replayed through expand(abbr, {'text': ...}) (list and, without repeater, string).",
+        "contract; each vector is replayed through expand(abbr, {'text': ...}) (list and, without repeater, string). Second layer: AbbrGrammar.tla generates every abbreviation of the documented grammar over a property-specific set of syntactic fragments; AbbrConvert.tla (tokenizer, token parser and convert() transcribed from the code, TLC-checked for acceptance, tiling and tree shape) computes its node tree, which is compared with the tree of the real emmet.abbreviation.parse() on the text of every element (escapes, nested braces, operators inside text, fields, $# and $ inside text).",
    note="Unescaped $ in payloads belongs to C02/C13; '<' and double quotes in lines are not generated (lexer limits). Multi-line "
         "insertions are compared as trimmed line lists. Trusted: TLC, tag lexer.",
    technique="TLA+ machine = contract (TLC) + spec->code replay at every text position / template",
    ref="5/C04")
 
 CHECKS['C18'] = dict(
-   text="Strings.tla enumerates every string up to the bound over a 26-symbol markup alphabet and a 26-symbol stylesheet alphabet "
-        "(every as-you-type prefix is a state) and simulates longer strings over structural alphabets; the real markup tokenizer and "
+   text="Strings.tla enumerates every string up to the bound over a 29-symbol markup alphabet and a 28-symbol stylesheet alphabet "
+        "(every as-you-type prefix is a state; stand-ins for a non-ASCII letter, a non-decimal digit character and a decimal digit of "
+        "another script), every combination of the numbering symbols up to five, and simulates longer strings over structural "
+        "alphabets; Fragments.tla enumerates every sequence of up to three (thorough: four) syntactic fragments; the real markup tokenizer and "
         "the real stylesheet tokenizer in property and in value mode are run on each string, and every token list (type, start, end) "
         "or raised error is validated as a trace by Trace_Tiling.tla, whose single state variable is the position up to which the "
         "input is covered: token k must start exactly there, be non-empty, stay inside the input, the last one must end at the end; an "
         "error must be the scanner error with a position inside the input.",
-   note="The specification here is the acceptance machine of the property plus the exhaustive input generator; the tokenizers "
-        "themselves are observed, not re-modelled. Bounded (length 3 quick / 4 thorough exhaustively, 10-14 simulated).",
+   note="The deciding specification is the acceptance machine of the property plus the exhaustive input generators. In addition the "
+        "char-level transcription of the markup tokenizer, token parser and convert() (AbbrSyntax.tla, AbbrConvert.tla; TLC checks "
+        "Tiling, ErrorInside, NoInternal on every string) is compared with the real code on every string of two alphabets in every run "
+        "(token spans, parse tree, outcome class, error position, converted tree); differences are reported as diagnostics in the "
+        "evidence, there are none. Bounded (length 3 quick / 4 thorough exhaustively, 10-14 simulated).",
    technique="TLA+ input enumeration (TLC) + code->spec trace validation of every token list",
    ref="5/C18")
 CHECKS['C07'] = dict(
-   text="Strings.tla enumerates every string up to the bound over the markup and stylesheet alphabets and simulates longer structural "
-        "strings; these, plus one-character deletions/duplications/replacements/insertions of every abbreviation literal harvested "
-        "from the repository's tests, are expanded by the real expand() under 10 markup configurations (html, jsx, pug, xsl+comments, "
+   text="Strings.tla enumerates every string up to the bound over the markup and stylesheet alphabets (incl. stand-ins for a non-ASCII "
+        "letter, a non-decimal digit character and a decimal digit of another script) and simulates longer structural strings; "
+        "Fragments.tla enumerates every sequence of up to three (thorough: four) syntactic fragments (27 markup, 27 stylesheet "
+        "fragments such as #i, [\"q\"], $@^2, {$#}, rgb(0,0,0), ${1:a}); these, plus one-character deletions/duplications/replacements/insertions of every abbreviation literal harvested "
+        "from the repository's tests, are expanded by the real expand() under 13 markup configurations (html, jsx, pug, xsl+comments, "
         "BEM, wrap text as list and string, context+BEM, slim+maxRepeat, vue with formatting options) resp. 8 stylesheet "
         "configurations (css, scss, stylus, value context, section and property scope, JSON, skipUnmatched off). Every outcome "
         "(class, reported position) is validated by Trace_Outcome.tla: a string, or one of the two parse errors with a position "
@@ -187,8 +194,11 @@ CHECKS['C10'] = dict(
    ref="5/C10")
 
 CHECKS['C16'] = dict(
-   text="Strings.tla enumerates every string over a 14-symbol HTML and a 13-symbol CSS punctuation alphabet up to the bound (every "
-        "prefix is a state) and simulates longer ones; prefixes and one-character mutations of valid documents are added. For every "
+   text="Strings.tla enumerates every string over a 15-symbol HTML and a 14-symbol CSS punctuation alphabet (line feed, carriage "
+        "return included) up to the bound (every prefix is a state) and simulates longer ones; Fragments.tla enumerates every "
+        "sequence of up to three (thorough: four) document fragments (tags of ordinary, void and special elements, stray closing "
+        "tags, comment / CDATA delimiters, rule / declaration / comment / string pieces); prefixes and one-character mutations of "
+        "valid documents are added. For every "
         "string and every position from -1 to len+1 the real html scan / match / balanced_outward / balanced_inward (HTML and XML mode) / "
         "attributes and css scan / match / balanced_outward / balanced_inward / split_value are called; every result or raised "
         "exception is one event of a trace validated by Trace_ScanMonitor.tla: no call raises; every range satisfies 0 <= start <= end "
